@@ -31,7 +31,7 @@ Proof. intros H. unfold pad_frame, frame_samples. rewrite app_length. cbn [lengt
 Lemma sample_of_spec e : sample_of e = spec_sample e.
 Proof. destruct e; reflexivity. Qed.
 
-Lemma sync_words : C.sync_lsf = sync_lsf /\ C.sync_stream = sync_stream /\ send_preamble = preamble.
+Lemma sync_words : ConstsModulator.sync_lsf = sync_lsf /\ ConstsModulator.sync_stream = sync_stream /\ send_preamble = preamble.
 Proof. repeat split; reflexivity. Qed.
 
 Section SM.
@@ -57,13 +57,13 @@ Lemma lsf_ok : all_bytes lsf /\ length lsf = 30%nat.
 Proof. rewrite <- lsf_eq. apply build_lsf_ok; apply encode_callsign_ok. Qed.
 
 Lemma encode_audio_spec c audio : encode_audio junk cstate codec2_encode c audio = enc_frame c audio.
-Proof. unfold encode_audio, encode_frame. change C.codec_calls with [(0%nat, 0%nat); (8%nat, 160%nat)].
+Proof. unfold encode_audio, encode_frame. change ConstsModulator.codec_calls with [(0%nat, 0%nat); (8%nat, 160%nat)].
   cbn [fold_left fst snd]. change (skipn 0 audio) with audio. change codec_samples with 160%nat.
   pose proof (codec_ok c (firstn 160 audio)) as [L1 _]. destruct (codec2_encode c (firstn 160 audio)) as [c1 b1]. cbn [snd] in L1.
   pose proof (codec_ok c1 (firstn 160 (skipn 160 audio))) as [L2 _].
   destruct (codec2_encode c1 (firstn 160 (skipn 160 audio))) as [c2 b2]. cbn [snd] in L2.
   f_equal. rewrite <- L1 at 1. apply copy_at_two.
-  destruct (uninit_ok junk C.codec_frame_len) as [_ UL]. rewrite UL, L1, L2. reflexivity. Qed.
+  destruct (uninit_ok junk ConstsModulator.codec_frame_len) as [_ UL]. rewrite UL, L1, L2. reflexivity. Qed.
 
 Lemma enc_frame_ok c audio : length (snd (enc_frame c audio)) = 16%nat /\ all_bytes (snd (enc_frame c audio)).
 Proof. unfold encode_frame.
@@ -88,7 +88,7 @@ Proof. unfold send_audio. rewrite encode_audio_spec. destruct (enc_frame_ok c au
   rewrite <- fn_field_plain by exact Bf. reflexivity. Qed.
 
 Lemma send_audio_eos c k audio :
-  send_audio junk cstate codec2_encode c (nth (N.to_nat (k mod 6)) lich []) (u16 (N.lor (k mod 32768) C.eos_mask)) audio =
+  send_audio junk cstate codec2_encode c (nth (N.to_nat (k mod 6)) lich []) (u16 (N.lor (k mod 32768) ConstsModulator.eos_mask)) audio =
   (fst (enc_frame c audio), frame_bytes k (snd (enc_frame c audio)) true).
 Proof. unfold send_audio. rewrite encode_audio_spec. destruct (enc_frame_ok c audio) as [L A].
   destruct (enc_frame c audio) as [c' p]. cbn [fst snd] in *. f_equal.
@@ -127,8 +127,8 @@ Proof. intros H. unfold mstep, act_state. cbn [st_mode st_index st_fn st_seg st_
   rewrite send_audio_plain. f_equal.
   pose proof (N.mod_upper_bound k 6 ltac:(discriminate)) as B6. pose proof (N.mod_upper_bound k 32768 ltac:(discriminate)) as Bf.
   rewrite (mod_succ k 32768), (mod_succ k 6) by reflexivity.
-  rewrite build_lich_length. change (N.of_nat 6) with 6. change C.fn_wrap_at with 32768. change C.fn_wrap_to with 0.
-  change C.lich_wrap_to with 0. change (N.to_nat C.active_index_reset) with 0%nat.
+  rewrite build_lich_length. change (N.of_nat 6) with 6. change ConstsModulator.fn_wrap_at with 32768. change ConstsModulator.fn_wrap_to with 0.
+  change ConstsModulator.lich_wrap_to with 0. change (N.to_nat ConstsModulator.active_index_reset) with 0%nat.
   unfold u16, u8. change 0xFFFF with (N.ones 16). change 0xFF with (N.ones 8). rewrite !N.land_ones.
   rewrite (N.mod_small (k mod 32768 + 1)) by (change (2 ^ 16) with 65536; lia).
   rewrite (N.mod_small (k mod 6 + 1)) by (change (2 ^ 8) with 256; lia). reflexivity. Qed.
